@@ -106,7 +106,7 @@ package state
 //@   property C01
 //@   pure
 //@   let rt = t.xmodel.QueryTx(txInput.RefTxid)
-//@   ensures of_the_creating_output: t.xmodel.QueryTx#2(txInput.RefTxid) == nil && rt != nil && 0 <= txInput.RefOffset && txInput.RefOffset < len(rt.TxOutputs) ==> result == rt.TxOutputs[txInput.RefOffset].FrozenHeight
+//@   ensures of_the_creating_output: t.xmodel.QueryTx#2(txInput.RefTxid) == nil && rt != nil && 0 <= txInput.RefOffset && txInput.RefOffset < len(rt.TxOutputs) ==> result == (str(rt.TxOutputs[txInput.RefOffset].ToAddr) == FeePlaceholder ? 0 : rt.TxOutputs[txInput.RefOffset].FrozenHeight)
 
 //@ func State.undoTxInternal
 //@   property C02
